@@ -61,6 +61,7 @@ func TestC06Reader(t *testing.T) {
 	rec.Require("tamper-header", "tamper-payload", "tamper-checksum", "tamper-linkid", "tamper-timestamp", "tamper-signature", "tamper-signature-2bits", "tamper-signature-byte", "forged-payload-enumerated-sig-byte", "v1", "unsigned", "other-key", "valid-delivered")
 	dpool := pool(t)
 	evid.Check(t, rec, evid.N(1200, 5000), func(t *rapid.T) {
+		readBufSize = 512
 		key := drawKey(t, "key")
 		var di *dialectInfo
 		var f ref.Frame
@@ -221,6 +222,7 @@ func TestC06Writers(t *testing.T) {
 	rec.Require("frame.Writer", "streamwriter.Writer", "frame.ReadWriter")
 	dpool := pool(t)
 	evid.Check(t, rec, evid.N(6000, 30000), func(t *rapid.T) {
+		readBufSize = 512
 		key := drawKey(t, "key")
 		di := drawDialect(t, dpool)
 		link := gen.Byte().Draw(t, "link")
